@@ -268,7 +268,12 @@ func includeExcept(line string, files *Files, depth int) ([]string, error) {
 		for k, v := range defs {
 			xd[k] = v
 		}
-		tmp := &Files{Include: map[string]string{"\x00x": text}, Exclude: files.Exclude}
+		// (the first definition of a name wins, so the include file's definitions are put in front of the exclude file's text)
+		seeded := ""
+		for k, v := range defs {
+			seeded += "##!> define " + k + " " + v + "\n"
+		}
+		tmp := &Files{Include: map[string]string{"\x00x": seeded + text}, Exclude: files.Exclude}
 		for k, v := range files.Include {
 			if _, ok := tmp.Include[k]; !ok {
 				tmp.Include[k] = v
@@ -297,6 +302,11 @@ func includeExcept(line string, files *Files, depth int) ([]string, error) {
 	}
 	var out []string
 	for i, e := range body {
+		if strings.HasPrefix(e, "##!") {
+			// marker and block lines of a wrapped include file are not entries: kept as they are, every one of them
+			out = append(out, e)
+			continue
+		}
 		if drop[e] || last[e] != i {
 			continue
 		}
